@@ -350,20 +350,20 @@ theorem connect_shape (script : List Step) (hello : Bytes) :
     (connect script hello).1.sent = [ehloLine hello] ∨
     ((connect script hello).1.sent = [quitLine, ehloLine hello] ∧ ∃ e, (connect script hello).2 = .error e) := by
   simp only [connect]
-  generalize hc0 : (Conn.deliver ⟨script, true, [], [], false, none, false⟩) = c0
-  have hd := deliver_fields ⟨script, true, [], [], false, none, false⟩
+  generalize hc0 : (Conn.deliver (Conn.fresh script [] none)) = c0
+  have hd := deliver_fields (Conn.fresh script [] none)
   rw [hc0] at hd
   have hr := read_fields c0
   cases hrd : c0.read with
   | mk c1 res =>
     have hc1 : c1 = c0.read.1 := by rw [hrd]
     cases res with
-    | error e => left; exact ⟨by rw [hc1, hr.1, hd.1], e, rfl⟩
+    | error e => left; exact ⟨by rw [hc1, hr.1, hd.1]; rfl, e, rfl⟩
     | ok g =>
       simp only
-      have h1s : c1.shut = false := by rw [hc1, hr.2.1, hd.2.1]
-      have h1p : c1.panic = false := by rw [hc1, hr.2.2.1, hd.2.2.1]
-      have h1sent : c1.sent = [] := by rw [hc1, hr.1, hd.1]
+      have h1s : c1.shut = false := by rw [hc1, hr.2.1, hd.2.1]; rfl
+      have h1p : c1.panic = false := by rw [hc1, hr.2.2.1, hd.2.2.1]; rfl
+      have h1sent : c1.sent = [] := by rw [hc1, hr.1, hd.1]; rfl
       have hcmd := command_open c1 (ehloLine hello) h1s
       simp only [Conn.ehlo]
       rcases try_command c1 (ehloLine hello) h1s with ⟨r, ht, _⟩ | ⟨e, ht, _⟩
